@@ -98,11 +98,11 @@ Fixpoint chunked_scan (t : arrty) (total : N) (es : list event) : N :=
   end.
 Definition chunked_array_usage (es : list event) : N := chunked_scan 0 0 es.
 
-(* the configuration whose object, depth and identifier limits are exactly the usage of [es] *)
+(* the configuration whose object, depth, identifier and marker limits are exactly the usage of [es] *)
 Definition usage_cfg (cfg : rcfg) (es : list event) : rcfg :=
   {| max_object_count := object_usage es; max_container_depth := depth_usage es;
      max_array_size_bytes := max_array_size_bytes cfg; max_identifier_length := ident_usage es;
-     max_local_reference_count := max_local_reference_count cfg; expected_version := expected_version cfg |}.
+     max_local_reference_count := marker_usage es; expected_version := expected_version cfg |}.
 
 (* the usage of an event list is within the limits of a configuration *)
 Definition within_limits (cfg : rcfg) (es : list event) : Prop :=
